@@ -519,6 +519,61 @@ Proof.
   rewrite (created_succ c nx Hnx). unfold drop_ev. rewrite Hdg. cbn [drops flat_map app]. perm_count.
 Qed.
 
+Lemma upd_perm (xs : list N) i t : (i < length xs)%nat -> Permutation (nth i xs 0 :: sp_upd i t xs) (t :: xs).
+Proof.
+  intros Hi. unfold sp_upd.
+  pose proof (firstn_skipn i xs) as E. rewrite (skipn_nth_cons 0 xs i Hi) in E.
+  apply perm_cnt. intros x. apply (f_equal (cnt x)) in E.
+  rewrite cnt_app, cnt_cons in E. rewrite !cnt_cons, cnt_app, cnt_cons. lia.
+Qed.
+
+Lemma write_own st nx v idx r D L :
+  1 <= nx -> sp_write c st nx v idx = Some r ->
+  Permutation (created c nx) (vis st ++ D ++ L) ->
+  Permutation (created c (s_nx r)) (vis (s_st r) ++ (D ++ drops (s_evs r)) ++ (L ++ [])).
+Proof.
+  intros Hnx Hr Hinv. unfold sp_write in Hr.
+  destruct (get_a v st) as [a|] eqn:Hg; [|discriminate]. cbv zeta in Hr.
+  pose proof (vis_get_any st v) as Hv. rewrite Hg in Hv. cbn [slot_xs] in Hv.
+  destruct (N.ltb_spec idx (N.of_nat (length (a_xs a)))) as [Hlt|Hge]; injection Hr as <-.
+  - cbn [ok_res s_nx s_st s_evs]. rewrite (created_succ c nx Hnx). rewrite drops_drop_ev by exact Hdg.
+    pose proof (vis_set_any st v (Some (with_xs a (sp_upd (N.to_nat idx) (tok c nx) (a_xs a))))) as H1.
+    cbn [slot_xs with_xs a_xs] in H1.
+    pose proof (upd_perm (a_xs a) (N.to_nat idx) (tok c nx) ltac:(lia)) as H2.
+    perm_count.
+  - cbn [panic_res s_nx s_st s_evs drops flat_map]. perm_count.
+Qed.
+
+Lemma swap_own st nx v1 i v2 j r D L :
+  sp_swap c st nx v1 i v2 j = Some r ->
+  Permutation (created c nx) (vis st ++ D ++ L) ->
+  Permutation (created c (s_nx r)) (vis (s_st r) ++ (D ++ drops (s_evs r)) ++ (L ++ [])).
+Proof.
+  intros Hr Hinv. unfold sp_swap in Hr.
+  destruct (Nat.eqb_spec v1 v2) as [|Hne]; [discriminate|].
+  destruct (get_a v1 st) as [a|] eqn:Hga; [|discriminate].
+  destruct (get_a v2 st) as [b|] eqn:Hgb; [|discriminate].
+  destruct (N.ltb_spec i (N.of_nat (length (a_xs a)))) as [Hi|Hi]; cbn [negb orb] in Hr.
+  2:{ injection Hr as <-. cbn [panic_res s_nx s_st s_evs drops flat_map]. perm_count. }
+  destruct (N.ltb_spec j (N.of_nat (length (a_xs b)))) as [Hj|Hj]; cbn [negb] in Hr.
+  2:{ injection Hr as <-. cbn [panic_res s_nx s_st s_evs drops flat_map]. perm_count. }
+  injection Hr as <-. cbn [ok_res s_nx s_st s_evs drops flat_map].
+  set (x := nth (N.to_nat i) (a_xs a) 0). set (y := nth (N.to_nat j) (a_xs b) 0).
+  set (st1 := set_a v1 (Some (with_xs a (sp_upd (N.to_nat i) y (a_xs a)))) st).
+  assert (Hgb1 : get_a v2 st1 = Some b).
+  { rewrite WorldCore.get_a_slot. unfold st1, set_a. rewrite WorldCore.slot_set_nth.
+    destruct (Nat.eqb_spec v2 v1); [congruence|]. rewrite <- WorldCore.get_a_slot. exact Hgb. }
+  pose proof (vis_get_any st v1) as Hv1. rewrite Hga in Hv1. cbn [slot_xs] in Hv1.
+  pose proof (vis_set_any st v1 (Some (with_xs a (sp_upd (N.to_nat i) y (a_xs a))))) as H1. fold st1 in H1.
+  cbn [slot_xs with_xs a_xs] in H1.
+  pose proof (vis_get_any st1 v2) as Hv2. rewrite Hgb1 in Hv2. cbn [slot_xs] in Hv2.
+  pose proof (vis_set_any st1 v2 (Some (with_xs b (sp_upd (N.to_nat j) x (a_xs b))))) as H2.
+  cbn [slot_xs with_xs a_xs] in H2.
+  pose proof (upd_perm (a_xs a) (N.to_nat i) y ltac:(lia)) as H3. fold x in H3.
+  pose proof (upd_perm (a_xs b) (N.to_nat j) x ltac:(lia)) as H4. fold y in H4.
+  perm_count.
+Qed.
+
 Theorem step_own st nx o r D L :
   1 <= nx -> spec_step c st nx o = Some r ->
   Permutation (created c nx) (vis st ++ D ++ L) ->
@@ -592,6 +647,10 @@ Proof.
     pose proof (take_own st nx v k _ KDrop r0 D L Hp Hnx E0 Hinv) as H.
     injection Hr as <-. cbn [leak_of].
     destruct (s_out r0 =? 0); cbn [s_nx s_st s_evs]; exact H.
+  - (* OWrite *)
+    exact (write_own st nx v idx r D L Hnx Hr Hinv).
+  - (* OSwap *)
+    destruct (pr =? 0); [|discriminate]. exact (swap_own st nx v1 i v2 j r D L Hr Hinv).
 Qed.
 End StepOwn.
 
